@@ -146,6 +146,12 @@ PoolBal(s, p, d) == IF p \in DOMAIN s.acc /\ d \in DOMAIN s.acc[p].total THEN s.
 HasPrices(s, p)  == \A d \in PoolAssets(s, p) : d \in DOMAIN s.oracle.lookupDenom /\ s.oracle.lookupDenom[d] \succ Zero
 PoolTVL(s, p)    == SumOver(PoolAssets(s, p), LAMBDA d : PoolBal(s, p, d) ** s.oracle.lookupDenom[d])
 OracleSingle(e, s, p) == s.amm.pools[p].useOracle /\ HasPrices(s, p) /\ Arg(e, "mode", "") = "single"
+BalSingle(e, s, t, p) ==
+  /\ ~s.amm.pools[p].useOracle
+  /\ Arg(e, "mode", "") = "single"
+  /\ Cardinality(PoolAssets(s, p)) = 2
+  /\ \A y \in PoolAssets(s, p) : s.amm.pools[p].assets[y].weightI > 0
+  /\ Cardinality({z \in PoolAssets(s, p) : Reserve(t, p, z) # Reserve(s, p, z)}) = 1
 
 \* amm.MsgJoinPool: shares minted = response; committed to the sender; tokens taken = response
 JoinChecks(k, e, s, t, g) ==
@@ -171,6 +177,16 @@ JoinChecks(k, e, s, t, g) ==
        Chk("C05", "C05.step.all_asset_join_mints_no_more_than_pro_rata", Arg(e, "mode", "") = "all",
            Arg(e, "mode", "") = "all" =>
               \A d \in PoolAssets(s, p) : e.resp.shareOut ** Reserve(s, p, d) \preceq (Get(e.resp.tokenIn, d, Zero) ++ One) ** s.amm.pools[p].shares,
+           Str(e.resp.shareOut)),
+       \* single-sided join of a constant-product pool (two assets, small integer weights): the per-share value of the
+       \* liquidity never decreases, i.e. (S'/S)^W <= (r'/r)^w up to the power approximation's 1e-8:
+       Chk("C05", "C05.step.weighted_single_join_mints_no_more_than_formula", BalSingle(e, s, t, p),
+           BalSingle(e, s, t, p) =>
+              LET d == CHOOSE x \in PoolAssets(s, p) : Reserve(t, p, x) # Reserve(s, p, x)
+                  w == s.amm.pools[p].assets[d].weightI
+                  W == FoldSet(LAMBDA x, acc : acc + s.amm.pools[p].assets[x].weightI, 0, PoolAssets(s, p))
+              IN Pow(t.amm.pools[p].shares ** N(100000000), W) ** Pow(Reserve(s, p, d), w)
+                   \preceq Pow(s.amm.pools[p].shares ** N(100000001), W) ** Pow(Reserve(t, p, d), w),
            Str(e.resp.shareOut)),
        \* single-sided join of an oracle pool: the minted shares are worth no more than the deposit at the oracle prices in force,
        \* measured against the pool as it is when the join executes (accounted balances where the pool has an accounted pool),
@@ -310,11 +326,15 @@ PositionChecks(k, e, s, t, g) ==
      \* C08: a full close / liquidation removes the position and leaves nothing committed at its address
      (IF TxOK(k, e, "leveragelp.MsgClose") THEN
         LET key == e.sender \o "/" \o e.args.id IN
+        \* (CloseLong closes the WHOLE position, whatever was requested, when its health - interest settled, which is what the
+        \* probe on the pre-state computes - is at or below the safety factor: position_close.go "close full amount")
         { Chk("C08", "C08.step.close_reduces_position_by_requested_lp", key \in LevPositions(s),
               key \in LevPositions(s) =>
-                 IF e.args.lp = s.lev.positions[key].lp
-                   THEN key \notin LevPositions(t) /\ \A d \in ShareDenoms(t) : Committed(t, s.lev.positions[key].posAddr, d) = Zero
-                   ELSE key \in LevPositions(t) /\ s.lev.positions[key].lp -- t.lev.positions[key].lp = e.args.lp, key) }
+                 LET ps == s.lev.positions[key]
+                     forced == ps.probeHealth \succeq Zero /\ ps.probeHealth \preceq s.lev.safetyFactor IN
+                 IF e.args.lp = ps.lp \/ forced
+                   THEN key \notin LevPositions(t) /\ \A d \in ShareDenoms(t) : Committed(t, ps.posAddr, d) = Zero
+                   ELSE key \in LevPositions(t) /\ ps.lp -- t.lev.positions[key].lp = e.args.lp, key) }
       ELSE {})
 
 -----------------------------------------------------------------------------
